@@ -79,7 +79,7 @@ func init() {
 		Rule: "random histories issuing create/update/patch/delete through the parent store (emps), a plain child store (emps/ext) and an extended child store (emps/xt) over mixed populations; " +
 			"after every transaction: FindById/LoadById visibility and shared fields through each store, child data presence, parent unique/set/fk indexes (structural monitor), QueryIds/IterateIds/IterateValidIds through each store vs the model, " +
 			"a whole-file scan for the id after deletes through either store, and an entity constraint on the parent store that must be handed the pre-transaction state for updates of plain and child entities alike; part (b): a delete refused by a constraint of the child store (veto constraint, fk restrict from a store referencing the child store) must fail and change nothing whether issued through the parent or the child store, and remove both parts once the blocker is gone. non-trivial = distinct (op kind, store routed through, entity child kind, outcome, configuration) tuples",
-		Assumptions: []string{"creating through a child store an id that already exists as a plain parent, and deleting a plain parent through the non-extended child store, are not generated (undefined by the statement)",
+		Assumptions: []string{"a create through a child store over an entity without data in that store is read as: the entity then exists in both, its shared fields are the payload's, validated like an update (what the repaired code does); deleting a plain parent through the non-extended child store is not generated (undefined by the statement)",
 			"the harness update mapper copies the caller's shared fields onto the loaded child entity (what an application mapper must do)"},
 		Plan: func(tier core.Tier, seed int64) int {
 			if tier == core.Thorough {
@@ -104,7 +104,10 @@ func init() {
 			// handed the state before the update (plain and child entities alike)
 			watch := &c15Watch{}
 			runHistory(c, r, histOpts{Prefix: "C15", FanIn: true, Cfg: cfg, NTx: 40, MaxOps: 3, Hostile: true, Weights: w, NeedDump: true,
-				Setup: func(e *kmodel.Engine) { e.Sc.St(kmodel.Emps).Store.AddEntityConstraint(watch) },
+				Setup: func(e *kmodel.Engine) {
+					e.Sc.St(kmodel.Emps).Store.AddEntityConstraint(watch)
+					e.M.Upgrade = true // creates through a child store over an entity without data in that store are judged
+				},
 				AfterTx: func(e *kmodel.Engine, res *kmodel.TxResult, before, after *dump.Dump) {
 					defer func() { pre = e.M.Clone() }()
 					seen := watch.take()
@@ -142,6 +145,12 @@ func init() {
 								for k := range ent.Child {
 									kind = k
 								}
+							}
+						}
+						if pre != nil && op.Kind == "create" && op.Store != kmodel.Emps && op.Exp == kmodel.ExpOK {
+							if _, existed := pre.Ents[kmodel.Emps][op.Id]; existed {
+								c.Count("creates_through_a_child_store_over_an_existing_entity", 1)
+								c.Cover("create_over_existing", op.Store+" over "+kind)
 							}
 						}
 						if kmodel.RootOf(op.Store) == kmodel.Emps {
@@ -301,7 +310,8 @@ func init() {
 				}})
 		},
 		Promises: func(core.Tier) map[string][]string {
-			return map[string][]string{"child_level_block": {"veto constraint on the child store / through parent", "veto constraint on the child store / through child", "fk restrict from a store referencing the child store / through parent", "fk restrict from a store referencing the child store / through child"},
+			return map[string][]string{"create_over_existing": {kmodel.Mgrs + " over plain", kmodel.Ctrs + " over plain", kmodel.Ctrs + " over " + kmodel.Mgrs, kmodel.Mgrs + " over " + kmodel.Ctrs},
+				"child_level_block": {"veto constraint on the child store / through parent", "veto constraint on the child store / through child", "fk restrict from a store referencing the child store / through parent", "fk restrict from a store referencing the child store / through child"},
 				"parent_constraint": {"update of plain entity", "update of " + kmodel.Mgrs + " entity", "update of " + kmodel.Ctrs + " entity"}, "route": {
 					"create via emps/ext on plain:ok", "create via emps/xt on plain:ok", "create via emps on plain:ok",
 					"update via emps on emps/ext:ok", "update via emps on emps/xt:ok", "update via emps/ext on emps/ext:ok", "update via emps/xt on emps/xt:ok",
